@@ -117,7 +117,7 @@ PROPS = {
         exhaustive=True, assumptions=["in-process cases drive the real site::Reader through an in-memory genotype::Reader; CLI cases run the real binary on generated VCF text / BCF (noodles writer, or a hand-written BCF2.2 encoder for mixed ploidy) / BGZF", "noodles (VCF/BCF/BGZF parsing), clap and env_logger are exercised, not modelled"],
     ),
     "C12": dict(
-        theorems=["detect_magic", "prefix_schedule_free", "pipeline_factors", "containers_agree", "pipeline_factors_decoded", "same_calls_same_output", "shape_by_lookup"],
+        theorems=["detect_magic", "prefix_schedule_free", "prefix_then_rest", "create_schedule_free", "pipeline_factors", "containers_agree", "pipeline_factors_decoded", "same_calls_same_output", "shape_by_lookup"],
         nontrivial=r"^c12-same",
         rule="12 (thorough 60) call sets (up to 3000 records, with/without projection and sample lists, one ending in a ploidy error) each run as {vcf, vcf.gz, bcf, raw bcf} x {path, stdin} x threads {1,3,16} "
              "(thorough 1,2,3,4,8,16) x BGZF layouts (one line per block, random cuts incl. mid-line, interleaved empty blocks; thorough also single block / 9 even cuts) x 2 (thorough 3) repeated executions: "
@@ -184,10 +184,11 @@ ST_ASSUME = ["in-process cases call the library statistics (with the dispatch / 
 PROPS.update({
     "C06": dict(
         theorems=["create_is_spectrum", "linear_stat", "sum_def", "S_def", "diffPairs_eq", "diffBetween_eq", "pi_def", "pixy_def", "f2_def", "f3_def", "f4_def", "fst_def",
-                  "king_def", "r0_def", "r1_def", "harmonic_eq", "watterson_published", "segregating_published", "pi_published", "tajimaD_published", "fuLiD_published"],
-        nontrivial=r"^(stmem-d[1-4]-(le171|gt171|3x3)|stcli-|stgeno-|stgenocli-)",
+                  "king_def", "r0_def", "r1_def", "harmonic_eq", "watterson_published", "segregating_published", "pi_published", "tajimaD_published", "fuLiD_published",
+                  "count_is_exact", "count_prints_as_integer", "count_text_roundtrip", "create_stdout_reads_back"],
+        nontrivial=r"^(stmem-d[1-4]-(le171|gt171|3x3)|stcli-|stgeno-|stgenocli-|stcmd2-)",
         rule="estimator level: 56 (thorough 416) 1-D count spectra with n in {3..7, 10, 25, 63, 64, 100, 169..172, 200, 400} + log-uniform up to 500 (thorough 900) chromosomes, a third with many empty classes: pi, theta, Tajima's D, Fu and Li's D, S, sum; "
-             "all 14 statistics (wrong dimensionality -> the specific error) on 160 (thorough 1500) spectra with 1-4 axes of unequal length incl. 3x3, a quarter also through `sfs stat` at precision 6/12/15; "
+             "all 14 statistics (wrong dimensionality -> the specific error) on 160 (thorough 1500) spectra with 1-4 axes of unequal length incl. 3x3, a quarter also through `sfs stat` at precision 6/12/15; 60 (thorough 400) invocations over the option surface of `sfs stat` (header row, delimiter, one precision for all / one per statistic / a wrong number, an inapplicable statistic in any position) against the `statCli` model; "
              "genotype level: 150 (thorough 1500) call sets with 1-4 populations of unequal size (and two-individual sets for KING/R0/R1), 1-60 (thorough 200) records with missing / multiallelic genotypes and unselected columns -> real site reader -> statistics, "
              "compared with the definitions evaluated directly on the genotypes (Spec.g*, published estimators on the class counts); a fifth through `sfs create | sfs stat --precision 12`; non-trivial = distinct request on a spectrum with more than 4 cells or any genotype-level / CLI case",
         exhaustive=False, assumptions=ST_ASSUME,
